@@ -2,8 +2,11 @@
 
 from __future__ import annotations
 
+from collections import defaultdict
+from contextlib import contextmanager
 from typing import TYPE_CHECKING
 from typing import Iterable
+from typing import Iterator
 from typing import Sequence
 from typing import TextIO
 
@@ -30,6 +33,21 @@ if TYPE_CHECKING:
     from liquid2 import RenderContext
     from liquid2 import TokenT
     from liquid2.builtin import KeywordArgument
+
+
+@contextmanager
+def _no_block_stacks(context: RenderContext) -> Iterator[None]:
+    """Render an included template with no inherited block stacks in force.
+
+    When `include` is used inside a block of an inheritance chain, blocks defined
+    by the included template are its own. They are not overridden by the chain.
+    """
+    outer_block_stacks = context.tag_namespace["extends"]
+    context.tag_namespace["extends"] = defaultdict(list)
+    try:
+        yield
+    finally:
+        context.tag_namespace["extends"] = outer_block_stacks
 
 
 class IncludeNode(Node):
@@ -87,7 +105,7 @@ class IncludeNode(Node):
 
         character_count = 0
 
-        with context.extend(namespace, template=template):
+        with context.extend(namespace, template=template), _no_block_stacks(context):
             if self.var:
                 val = self.var.evaluate(context)
                 key = self.alias or template.name.split(".")[0]
@@ -132,7 +150,7 @@ class IncludeNode(Node):
 
         character_count = 0
 
-        with context.extend(namespace, template=template):
+        with context.extend(namespace, template=template), _no_block_stacks(context):
             if self.var:
                 val = await self.var.evaluate_async(context)
                 key = self.alias or template.name.split(".")[0]
